@@ -149,7 +149,7 @@ PROPS['C11'] = dict(_GC, design=[D('MCGoChannelImpl','MCGoChannelImpl_persistent
 
 PROPS['C06'] = dict(
     level='model_checking',
-    design=[D('RouterLifecycle', 'MCRouterLifecycle_fixed.cfg', coverage=True, allow_zero=['UserStop', 'RHAfterStarted', 'Timeout']),
+    design=[D('RouterLifecycle', 'MCRouterLifecycle_fixed.cfg', coverage=True, allow_zero=['UserStop', 'RHAfterStarted', 'Timeout', 'RunCtxCancel', 'ClReturnAgain']),
             D('RouterLifecycle', 'MCRouterLifecycle_fixed_stop.cfg'),
             D('RouterLifecycle', 'MCRouterLifecycle_mut_waits.cfg', expect='fail', violates='Graceful'),
             D('RouterLifecycle', 'MCRouterLifecycle_mut_handleclose.cfg', expect='fail', violates='SubClosedAtEnd'),
@@ -169,6 +169,7 @@ PROPS['C06'] = dict(
 PROPS['C10'] = dict(
     level='model_checking',
     design=[D('RouterLifecycle', 'MCRouterLifecycle_fixed_stop.cfg'),
+            D('RouterLifecycle', 'MCRouterLifecycle_selfclose.cfg'),
             D('RouterLifecycle', 'MCRouterLifecycle_mut_started.cfg', expect='fail', violates='NoPanic')],
     traces={'RouterLifecycleTrace': dict(module='RouterLifecycleTrace', cfg='RouterLifecycleTrace.cfg')},
     rule='runs = lifecycle programs over {AddHandler, Run, wait Running, RunHandlers (sequential and 3-6 concurrent calls with slow Subscribe), wait Started, Stop, wait Stopped, '
